@@ -40,7 +40,7 @@ static S_PT: AtomicU32 = AtomicU32::new(0);
 static S_PN: AtomicU32 = AtomicU32::new(0);
 static S_PSK: AtomicU32 = AtomicU32::new(0);
 
-const WATCHDOG: Duration = Duration::from_secs(20);
+const WATCHDOG: Duration = Duration::from_secs(15);
 
 fn tagged(rng: &mut Rng, n: usize, tag: u8) -> Vec<u8> {
     // position-dependent bytes so that reordering / duplication / loss shows
@@ -197,6 +197,9 @@ fn plaintext_raw_case(check: &Check, rng: &mut Rng) {
 // ---------------------------------------------------------------------------------------------
 
 fn plaintext_pair_case(check: &Check, rng: &mut Rng) {
+    if watchdog_budget_spent(check) {
+        return;
+    }
     let ka = gen_key(rng.usize(2), rng);
     let kb = gen_key(rng.usize(2), rng);
     let (ida, idb) = (PeerId::from_public_key(&ka.public()), PeerId::from_public_key(&kb.public()));
@@ -228,7 +231,10 @@ fn plaintext_pair_case(check: &Check, rng: &mut Rng) {
     let witness = || json!({"schedules": desc, "a_writes": data_a.len(), "b_writes": data_b.len()});
     match catch(|| block_on_timeout(futures::future::join(fa, fb), WATCHDOG)) {
         Err(p) => check.violation(format!("panic@{}", p.site()), p.msg.clone(), witness()),
-        Ok(None) => check.inconclusive("plaintext pair watchdog"),
+        Ok(None) => {
+            check.count("watchdog_fired", 1);
+            check.inconclusive("plaintext pair watchdog")
+        }
         Ok(Some((ra, rb))) => {
             match (ra, rb) {
                 (Ok((pa, ga)), Ok((pb_, gb))) => {
@@ -251,7 +257,15 @@ fn plaintext_pair_case(check: &Check, rng: &mut Rng) {
 // (c) pnet transparency
 // ---------------------------------------------------------------------------------------------
 
+/// budget guard: every watchdog expiry costs WATCHDOG seconds; stop starting cases after a few
+fn watchdog_budget_spent(check: &Check) -> bool {
+    check.counter("watchdog_fired") >= 24
+}
+
 fn pnet_case(check: &Check, rng: &mut Rng) {
+    if watchdog_budget_spent(check) {
+        return;
+    }
     let mut key = [0u8; 32];
     rng.fill(&mut key);
     let psk = PreSharedKey::new(key);
@@ -315,7 +329,17 @@ fn pnet_case(check: &Check, rng: &mut Rng) {
     let fut = futures::future::join(side(a, wa.clone(), read_sizes.clone(), a2b.clone(), ca), side(b, wb.clone(), read_sizes.clone(), b2a.clone(), cb));
     match catch(|| block_on_timeout(fut, WATCHDOG)) {
         Err(p) => check.violation(format!("panic@{}", p.site()), format!("pnet panicked: {}", p.msg), witness()),
-        Ok(None) => check.inconclusive("pnet watchdog"),
+        Ok(None) => {
+            check.count("watchdog_fired", 1);
+            // logical, not temporal: a stream cipher puts exactly one byte on the wire per payload byte (after the
+            // 24-byte nonce); more than that means bytes were re-sent
+            for (who, ctl, sent) in [("a-to-b", &a2b, &sent_a), ("b-to-a", &b2a, &sent_b)] {
+                if ctl.written() > 24 + sent.len() as u64 {
+                    check.violation("pnet-wire-bytes-exceed-payload", format!("{who}: {} bytes on the wire for {} payload bytes + 24 nonce bytes", ctl.written(), sent.len()), witness());
+                }
+            }
+            check.inconclusive("pnet watchdog")
+        }
         Ok(Some((ra, rb))) => {
             for (who, got, want) in [("b-to-a", &ra, &sent_b), ("a-to-b", &rb, &sent_a)] {
                 match got {
@@ -330,6 +354,9 @@ fn pnet_case(check: &Check, rng: &mut Rng) {
             }
             // the wire carries 24 nonce bytes plus exactly one byte per payload byte
             let (la, lb) = (a2b.written(), b2a.written());
+            if ra.is_ok() && rb.is_ok() && (la != 24 + sent_a.len() as u64 || lb != 24 + sent_b.len() as u64) {
+                check.violation("pnet-wire-bytes-differ-from-payload", format!("wire {la}/{lb} bytes, payload {}/{} (+24 nonce each)", sent_a.len(), sent_b.len()), witness());
+            }
             check.count("pnet_payload_bytes", (sent_a.len() + sent_b.len()) as u64);
             check.count("pnet_wire_bytes", la + lb);
             check.case(Sig::new().str(&desc).u64(sent_a.len() as u64).u64(sent_b.len() as u64).u64(ca.unwrap_or(0) as u64).0, !sent_a.is_empty() || !sent_b.is_empty());
